@@ -322,3 +322,26 @@ HARNESS h_simd_elem_kf_C02K() {   // by-element operand whose element type diffe
   V_ASSERT(r.e != Error::kOk, "by-element operand with a different element type is refused");
   V_WITNESS("kf-elem-type");
 }
+HARNESS h_simd_kf_C02N() {   // SQDMULH/SQRDMULH/SQRDMLAH/SQRDMLSH (scalar, by element): 01 U 11111 size L M Rm opcode H 0 Rn Rd
+  uint32_t sel = nondet_u8() & 3; bool h = nondet_bool(); uint32_t d = nondet_u8() & 31, n = nondet_u8() & 31, m = nondet_u8() & 15, idx = nondet_u8() & 3;
+  uint32_t el = h ? 1 : 2;
+  Res r;
+  switch (sel) {
+    case 0: r = emit(Inst::kIdSqdmulh_v, vscalar(el, d), vscalar(el, n), velem(el, idx, m)); break;
+    case 1: r = emit(Inst::kIdSqrdmulh_v, vscalar(el, d), vscalar(el, n), velem(el, idx, m)); break;
+    case 2: r = emit(Inst::kIdSqrdmlah_v, vscalar(el, d), vscalar(el, n), velem(el, idx, m)); break;
+    default: r = emit(Inst::kIdSqrdmlsh_v, vscalar(el, d), vscalar(el, n), velem(el, idx, m)); break;
+  }
+  if (r.e == Error::kOk) {
+    V_ASSERT(fld(r.w, 30, 1) == 1 && fld(r.w, 28, 1) == 1, "scalar by-element form has bits 30 and 28 set (01 U 11111)");
+    V_WITNESS("kf-scalar-elem");
+  }
+}
+HARNESS h_simd_kf_C02O() {   // XAR Vd.2D, Vn.2D, Vm.2D, #imm6 : 11001110100 Rm imm6 Rn Rd
+  uint32_t d = nondet_u8() & 31, n = nondet_u8() & 31, m = nondet_u8() & 31, imm = nondet_u8() & 63;
+  Res r = emit(Inst::kIdXar_v, varr(1, 3, d), varr(1, 3, n), varr(1, 3, m), Imm(imm));
+  if (r.e == Error::kOk) {
+    V_ASSERT(r.w == (0xCE800000u | (m << 16) | (imm << 10) | (n << 5) | d), "xar encodes as 11001110100 Rm imm6 Rn Rd");
+    V_WITNESS("kf-xar");
+  }
+}
